@@ -91,6 +91,13 @@ MUTATIONS = [
     ("c-id-truncated", "plugins/fcp_can_c/templates/can_device_c.jinja", "CanFrame message = {.id = {{message.frame_id}}, .dlc = {{message.dlc}}};\n\tuint64_t word = 0;", "CanFrame message = {.id = {{message.frame_id % 1024}}, .dlc = {{message.dlc}}};\n\tuint64_t word = 0;", ["C06"]),
     ("c-carrier-too-small", "plugins/fcp_can_c/fcp_can_c/can_c_writer.py", "    if x <= 8:\n        return 8", "    if x <= 9:\n        return 8", ["C06"]),
     ("c-signconv-off-by-one", "plugins/fcp_can_c/templates/can_signal_parser.c", "    if (length < 64 && get_bit(bitfield, (length - 1))) {", "    if (length < 63 && get_bit(bitfield, (length - 1))) {", ["C06"]),
+    ("cpp-encode-decl-order", "plugins/fcp_cpp/fcp_cpp/fcp.h.j2", '    {%- for signal in struct.fields | sort(attribute="field_id") %}\n        {{signal.name}}_.Encode(buffer, endianess);', '    {%- for signal in struct.fields %}\n        {{signal.name}}_.Encode(buffer, endianess);', ["C15", "C03"]),
+    ("cpp-carrier-rounds-down", "plugins/fcp_cpp/fcp_cpp/generator.py", "return int(max(2 ** math.ceil(math.log2(n)), 8))", "return int(max(2 ** math.floor(math.log2(n)) if n > 33 else 2 ** math.ceil(math.log2(n)), 8))", ["C03"]),
+    ("cpp-getword-signmask", "plugins/fcp_cpp/fcp_cpp/buffer.h", "        bool msb_set = (result >> (bitlength-1)) == 1;", "        bool msb_set = (result >> (bitlength-1)) == 1 && bitlength != 13;", ["C03"]),
+    ("cpp-enum-size-offbyone", "src/fcp/specs/enum.py", "        if m == 1 or m == 0:\n            return 1", "        if m == 1 or m == 0:\n            return 1\n        if m == 8:\n            return 3", ["C03", "C04"]),
+    ("cpp-decode-reversed", "plugins/fcp_cpp/fcp_cpp/fcp.h.j2", '    {%- for signal in struct.fields | sort(attribute="field_id") %}\n        auto {{signal.name}} = {{signal.name | to_pascal_case}}Type::Decode(buffer, endianess);', '    {%- for signal in struct.fields | sort(attribute="field_id", reverse=(struct.fields | length) == 5) %}\n        auto {{signal.name}} = {{signal.name | to_pascal_case}}Type::Decode(buffer, endianess);', ["C03"]),
+    ("cpp-optional-flag-1bit", "plugins/fcp_cpp/fcp_cpp/decoders.h", "        Unsigned<std::uint8_t, 8>(data_.has_value() ? 1 : 0).Encode(buffer);", "        Unsigned<std::uint8_t, 1>(data_.has_value() ? 1 : 0).Encode(buffer);", ["C03"]),
+    ("cpp-string-len-u16", "plugins/fcp_cpp/fcp_cpp/decoders.h", "        Unsigned<std::uint32_t, 32>(data_.size()).Encode(buffer);\n        for (const auto& c: data_) {", "        Unsigned<std::uint32_t, 16>(data_.size()).Encode(buffer);\n        for (const auto& c: data_) {", ["C03"]),
     ("serde-array-last-elem", S, "    for i in range(type.size):\n        _encode(buffer, fcp, type.underlying_type, data[i])", "    for i in range(type.size):\n        _encode(buffer, fcp, type.underlying_type, data[min(i, 1)])", ["C01", "C02"]),
 ]
 
